@@ -1130,6 +1130,70 @@ theorem audience_end_to_end (H : Bytes → UInt64) (p : Policy) (st : Store) (sr
     refine ⟨c, hc, by rw [← hv, h1], by rw [← h2]; exact hb, ?_⟩
     rw [ha, h3, maskBytes_idem]
 
+/-- **The allow-list sees an IPv4-mapped peer as the IPv4 client it is**: whatever byte
+form the transport reports (4 bytes, or 16-byte `::ffff:a.b.c.d` from a dual-stack
+listener), the eligibility verdict — which the cache and the edns layer must share, or a
+scoped answer is filed under the shared key — is the same. -/
+theorem allowlist_mapped_peer_is_v4 (nets : List Prefix) (a : Bytes) (ha : a.length = 4) :
+    policyAllows nets { v6 := true, bits := 128, addr := [0, 0, 0, 0, 0, 0, 0, 0, 0, 0, 0xFF, 0xFF] ++ a } =
+    policyAllows nets { v6 := false, bits := 32, addr := a } := by
+  unfold policyAllows unmapPeer
+  simp
+
+-- non-vacuity: 198.51.100.77 in either form is inside 198.51.100.0/24, 2001:db8::1 is not
+example :
+    let nets : List Prefix := [{ v6 := false, bits := 24, addr := [198, 51, 100, 0] }]
+    policyAllows nets { v6 := false, bits := 32, addr := [198, 51, 100, 77] } = true ∧
+    policyAllows nets { v6 := true, bits := 128, addr := [0, 0, 0, 0, 0, 0, 0, 0, 0, 0, 0xFF, 0xFF, 198, 51, 100, 77] } = true ∧
+    policyAllows nets { v6 := true, bits := 128, addr := [0x20, 1, 0x0d, 0xb8, 0, 0, 0, 0, 0, 0, 0, 0, 0, 0, 0, 1] } = false ∧
+    policyAllows nets { v6 := false, bits := 32, addr := [198, 51, 101, 77] } = false := by decide
+
+/-- **A failed resolution is filed for its own question, partition and audience**
+(`WriteMsg` → `Store.RecordFailure` → `RecordQuestion`): afterwards the state found under
+the hash of (canonical name, type, class, CD, normalised audience) carries exactly that
+identity — so by `route_identity_failureLookup` no other audience's lookup is answered
+from it. -/
+theorem recorded_failure_keeps_audience (H : Bytes → UInt64) (s : AFStore) (id : Nat) (name : Bytes)
+    (qtype qclass : UInt16) (cd : Bool) (scope : Scope) :
+    ∃ f, loadQuestion H (recordFailure H s id name qtype qclass cd scope).get (canonicalName name) qtype qclass cd
+          (normalizeKeyScope scope) = some f ∧
+      f.kind = FKind.question ∧ f.name = canonicalName name ∧ f.qtype = qtype ∧ f.qclass = qclass ∧
+      f.cd = cd ∧ f.scope = normalizeKeyScope scope := by
+  unfold recordFailure
+  simp only
+  cases hl : loadQuestion H s.get (canonicalName name) qtype qclass cd (normalizeKeyScope scope) with
+  | some f =>
+    simp only
+    refine ⟨f, hl, ?_⟩
+    unfold loadQuestion at hl
+    cases hs : s.get (failureQuestionHash H (canonicalName name) qtype qclass cd (normalizeKeyScope scope)) with
+    | none => simp [hs] at hl
+    | some e =>
+      simp only [hs] at hl
+      split at hl
+      · rename_i hc
+        simp only [Option.some.injEq] at hl
+        subst hl
+        simp only [Bool.and_eq_true, beq_iff_eq, decide_eq_true_eq] at hc
+        exact ⟨hc.1.1.1.1.1, hc.1.1.1.1.2, hc.1.1.1.2, hc.1.1.2, hc.1.2, hc.2⟩
+      · cases hl
+  | none =>
+    simp only
+    refine ⟨{ id := id, kind := FKind.question, name := canonicalName name, qtype := qtype, qclass := qclass,
+              cd := cd, scope := normalizeKeyScope scope, active := true }, ?_, rfl, rfl, rfl, rfl, rfl, rfl⟩
+    unfold loadQuestion AFStore.get
+    simp [List.find?]
+
+-- non-vacuity: the failure of `a. A` for 192.0.2.0/24 is found by that audience and by no other
+example :
+    let Hh : Bytes → UInt64 := fun b => UInt64.ofNat (b.foldl (fun acc x => acc * 257 + x.toNat + 1) 0)
+    let aud : Scope := some { v6 := false, bits := 24, addr := [192, 0, 2, 0] }
+    let fs := recordFailure Hh [] 7 [0x41, 0x2E] 1 1 false aud
+    (failureLookup Hh fs.get [0x61, 0x2E] 1 1 false aud).map (·.id) = some 7 ∧
+    failureLookup Hh fs.get [0x61, 0x2E] 1 1 false none = none ∧
+    failureLookup Hh fs.get [0x61, 0x2E] 1 1 false (some { v6 := false, bits := 24, addr := [192, 0, 3, 0] }) = none ∧
+    failureLookup Hh fs.get [0x61, 0x2E] 1 1 true aud = none := by decide +kernel
+
 /-- `ecs.Build` defaults: ceilings /24 and /56, floors equal to the ceilings — with the
 default configuration no admitted scope is wider than what was forwarded. -/
 theorem buildPolicy_defaults :
